@@ -3,12 +3,14 @@ from props import crcucommon as C, gpcommon as G
 
 ID = "C04"
 RULE = ("Same scenario family as C03 with the generator weighted towards rcu_barrier() calls from several threads (qsbr: online and offline "
-        "callers), several helpers (default, per-thread, per-CPU) and helper creation/destruction in parallel. Oracle: for every callback whose "
+        "callers), several helpers (default, per-thread, per-CPU) and helper creation/destruction in parallel; one program in five is a call_rcu-focused program and one a "
+        "teardown program (main creates per-CPU helpers, the other threads call call_rcu(), main destroys them again); one case in eight contains a burst of 255-8193 callbacks "
+        "from one thread (counting oracle: all of a burst queued before a barrier have run when it returns). Oracle: for every callback whose "
         "call_rcu() had returned before rcu_barrier() was entered (any thread), the callback function has returned when rcu_barrier() returns; "
         "rcu_barrier() terminates (deadlock/stuck/10x-budget). Non-trivial: a barrier was entered with >=1 such callback still pending. "
         " Up to 2 injected futex faults per case (k-th blocking FUTEX_WAIT returns spuriously or with EINTR). distinct = distinct case text.")
 ASSUMPTIONS = G.E1_ASSUMPTIONS + ["bounded: <=4 threads + main, <=12 ops per thread"]
 EXAMPLES = {"quick": 360, "thorough": 4000}
-example = C.make_example(["barrier", "barrier", "barrier", "callrcu"])
+example = C.make_example(["barrier", "barrier", "barrier", "callrcu", "teardown"])
 judge = C.make_judge(("rcu_barrier", "heap memory", "double free", "invalid pointer"), lambda text, res: G.flag(res, 3))
 confirm = C.confirm
